@@ -530,7 +530,7 @@ theorem skel_Channel_process_data_events : Gen.Skel.Channel_process_data_events 
     "continue", "endif", "r:_consumer_callbacks", "endfor"] := by decide
 
 theorem skel_Channel_start_consuming : Gen.Skel.Channel_start_consuming =
-  ["while", "r:is_closed", "do", "call:process_data_events", "if", "r:consumer_tags", "then",
+  ["while", "r:is_closed", "do", "r:consumer_tags", "call:process_data_events", "if", "then",
     "call:time.sleep", "continue", "endif", "break", "endwhile", "if", "r:exceptions", "then",
     "call:check_for_errors", "endif"] := by decide
 
